@@ -180,8 +180,8 @@ fn one_case(rng: &mut Rng, case: &mut Case, p: &TyParams, with_machine: bool) ->
 
 pub fn run(ctx: &Ctx) {
     let t = ctx.tier;
-    ctx.run_sub("history-pairs-small", Plan::sample(t.pick(40_000, 2_000_000), 0.4), |rng, case| one_case(rng, case, &TyParams::small(), true));
-    ctx.run_sub("history-pairs-medium", Plan::sample(t.pick(6_000, 300_000), 0.3), |rng, case| one_case(rng, case, &TyParams::medium(), true));
+    ctx.run_sub("history-pairs-small", Plan::sample(t.pick(160_000, 2_000_000), 0.4), |rng, case| one_case(rng, case, &TyParams::small(), true));
+    ctx.run_sub("history-pairs-medium", Plan::sample(t.pick(24_000, 300_000), 0.3), |rng, case| one_case(rng, case, &TyParams::medium(), true));
     // every type with at most 3 (4) constructors, every value, all history pairs
     let tys = ty::all_types_up_to(t.pick(3, 4));
     ctx.run_sub("tiny-types-exhaustive", Plan::enumerate(tys.len() as u64, 0.2), |rng, case| {
